@@ -568,19 +568,20 @@ func c04R6(c *Ctx, r *Report) {
 		r.Fail("C04-R6", "anchor (db.RevTree).pruneRevisions", "-", "function not found")
 		return
 	}
-	// snip stores: Parent = ""
-	var snips []ssa.Instruction
-	EachInstr(fn, false, func(in ssa.Instruction) {
+	// snip sites: Parent = "" stores, or calls of helpers that contain them
+	isSnip := func(in ssa.Instruction) bool {
 		if st, ok := in.(*ssa.Store); ok {
 			if fa, ok := st.Addr.(*ssa.FieldAddr); ok {
-				if f := structField(fa.X.Type(), fa.Field); f != nil && f.Name() == "Parent" {
+				if f := structField(fa.X.Type(), fa.Field); f != nil && f.Name() == "Parent" && namedOf(fa.X.Type()) == "RevInfo" {
 					if s, ok := constString(st.Val); ok && s == "" {
-						snips = append(snips, st)
+						return true
 					}
 				}
 			}
 		}
-	})
+		return false
+	}
+	snips := c.EffectSites(fn, isSnip, 2)
 	if len(snips) == 0 {
 		r.Fail("C04-R6", "fn=(db.RevTree).pruneRevisions snip", c.Pos(fn.Pos()), "dangling parent links are no longer snipped after pruning")
 		return
@@ -605,17 +606,18 @@ func c04R6(c *Ctx, r *Report) {
 		}
 	}
 	isRet := func(in ssa.Instruction) bool { _, ok := in.(*ssa.Return); return ok }
-	var dels []ssa.Instruction
-	EachInstr(fn, false, func(in ssa.Instruction) {
+	isDel := func(in ssa.Instruction) bool {
 		if call, ok := in.(*ssa.Call); ok {
-			if bi, ok := call.Call.Value.(*ssa.Builtin); ok && bi.Name() == "delete" {
-				dels = append(dels, call)
+			if bi, ok := call.Call.Value.(*ssa.Builtin); ok && bi.Name() == "delete" && len(call.Call.Args) > 0 && namedOf(call.Call.Args[0].Type()) == "RevTree" {
+				return true
 			}
 			if c.CalleeName(call) == "(db.RevTree).DeleteBranch" {
-				dels = append(dels, call)
+				return true
 			}
 		}
-	})
+		return false
+	}
+	dels := c.EffectSites(fn, isDel, 2)
 	for i, d := range dels {
 		leak := ReachAfter(d, isRet, NewAvoid().AddInstr(guards...))
 		r.Check("C04-R6", fmt.Sprintf("fn=(db.RevTree).pruneRevisions deletion #%d followed-by=dangling-parent-snip", i+1), c.Pos(d.Pos()), leak == nil,
